@@ -31,7 +31,7 @@ func vBFile(i int) BFile {
 
 // H_C13_MetadataComplete: the info dictionary is an arbitrary value of its type (what any
 // byte string can decode to). Parameter pl: -1 = any piece length that is not a multiple of
-// 16 KiB (symbolic), otherwise the constant piece length. Parameter files: -1 = no file list.
+// 16 KiB (symbolic), -2 = k*2^32 + {0, 16 KiB} for k = 0..2 (truncated to the field's width), otherwise the constant piece length. Parameter files: -1 = no file list.
 func H_C13_MetadataComplete() { vC13(vParam("files")) }
 
 // H_C13_MetadataComplete_emptylist: the same with a present but empty file list (engine only:
@@ -42,11 +42,17 @@ func vC13(nf int) {
 	var info BInfo
 	info.Name = vString("name", 2)
 	info.Name8 = vString("name8", 2)
-	if pl := vParam("pl"); pl < 0 {
-		info.PieceLength = vU32("piecelength")
-		vAssume(info.PieceLength%16384 != 0)
+	// (set through a generic helper, so that the harness still compiles if the field's integer
+	// type is changed)
+	if pl := vParam("pl"); pl == -1 {
+		x := vU32("piecelength")
+		vAssume(x%16384 != 0)
+		vSetInt(&info.PieceLength, uint64(x))
+	} else if pl == -2 {
+		// values around the 32-bit boundary, whatever the width of the field: k*2^32 + {0, 16 KiB}
+		vSetInt(&info.PieceLength, uint64(vChoose("plhi", 0, 2))<<32+uint64(vChoose("pllo", 0, 1))*16384)
 	} else {
-		info.PieceLength = uint32(pl)
+		vSetInt(&info.PieceLength, uint64(pl))
 	}
 	info.Pieces = vBytes("pieces", 3*20+19)
 	info.Length = vI64("length")
@@ -198,3 +204,5 @@ func H_C13_ReadTorrent() {
 	}
 	vAssert(len(t.trackers) <= 1, "at most the announced tracker")
 }
+
+func vSetInt[T ~uint32 | ~int64 | ~uint64 | ~int | ~int32](p *T, v uint64) { *p = T(v) }
